@@ -462,7 +462,7 @@ func (c18) Run(sc *Scenario) *Verdict {
 	v := &Verdict{}
 	w := sc.World
 	full := w.Reachable(w.RootNode(), false)
-	hasIDs := (sc.Cfg != nil && (sc.Cfg.IDs > 0 || sc.Cfg.IDScopes)) || sc.Note == "file references with queries" || sc.Note == "references to built-in meta-schemas"
+	hasIDs := (sc.Cfg != nil && (sc.Cfg.IDs > 0 || sc.Cfg.IDScopes)) || strings.HasPrefix(sc.Note, "file references with queries") || strings.HasPrefix(sc.Note, "references to built-in meta-schemas")
 	if (len(full.Bad) > 0 || full.IllFound) && !hasIDs {
 		v.Inconclusive = "world is not well-formed (outside this property's quantifier)"
 		return v
